@@ -25,10 +25,10 @@ type Ctx struct {
 	ppkgs      map[string]*packages.Package
 	funcs      map[string]*ssa.Function // "pkgpath::Key" -> function
 	fnKey      map[*ssa.Function]string
-	contracts  map[string]*ContractFile // by package path
-	escFields  map[string]bool          // "S.sortname#idx" fields whose address escapes
+	contracts  map[string]*ContractFile        // by package path
+	escFields  map[string]bool                 // "S.sortname#idx" fields whose address escapes
 	merged     map[*ssa.Function]*FuncContract // explicit contract merged with the matching funcs blocks
-	mutGlobals map[string]bool          // globals stored to outside package initialisers
+	mutGlobals map[string]bool                 // globals stored to outside package initialisers
 	writeSets  map[*ssa.Function]*WriteSet
 	wsBusy     map[*ssa.Function]bool
 	instWS     map[string]*WriteSet
